@@ -97,12 +97,16 @@ where
                         #[cfg(selium_verif)]
                         crate::verif::emit("pubsub_adopt_stream", &next_stream_id.to_string());
                         *next_stream_id += 1;
+                        // Keep draining the channel: its waker is only registered by a
+                        // poll that returns Pending
+                        continue;
                     }
                     Socket::Sink(si) => {
                         sink.as_mut().insert(*next_sink_id, si);
                         #[cfg(selium_verif)]
                         crate::verif::emit("pubsub_adopt_sink", &next_sink_id.to_string());
                         *next_sink_id += 1;
+                        continue;
                     }
                 },
                 // If handle is terminated, the stream is dead
